@@ -109,6 +109,25 @@ def parseByRepoOut (s : String) : Option (List (List Nat × Stats)) :=
       | none => none
     | _ => none
 
+def showObs : Obs → String
+  | .dBegin n => s!"B{n}"
+  | .dEnd n => s!"E{n}"
+  | .sendRet => "R"
+  | .finalRet => "F"
+
+def parseObs (s : String) : Option Obs :=
+  if s == "R" then some .sendRet
+  else if s == "F" then some .finalRet
+  else if s.startsWith "B" then (s.drop 1).toString.toNat?.map .dBegin
+  else if s.startsWith "E" then (s.drop 1).toString.toNat?.map .dEnd
+  else none
+
+def parseTrace (s : String) : Option (List Obs) :=
+  if s == "-" then some [] else (s.splitOn ",").mapM parseObs
+
+def parseSched (s : String) : Option (List Tid) :=
+  s.toList.mapM fun c => if c == 'm' then some Tid.main else if c == 't' then some Tid.timer else none
+
 def verdict (model : String) (max : Nat) (evs : List Event) (msgs : List Msg) : String :=
   if checkP max evs msgs then answer model else specFail model (failKey max evs msgs)
 
@@ -177,6 +196,15 @@ def handle (line : String) : String :=
         let ctrOk := (List.range stats.c.length).all fun i => ((got.map (·.2.ctr i)).sum == stats.ctr i)
         if decide (ids = want) && ctrOk then answer model else specFail model "byrepo-files-or-counters-not-conserved"
     | _, _, _ => badCase "byrepo fields"
+  | ["sched", n, sc] =>
+    -- the collector with two goroutines: the harness forced the schedule `sc` (m = a step of the search loop, t = a step
+    -- of the flush timer; steps that are not enabled are no-ops) with a gated downstream sender and reports the observed
+    -- trace; the model runs the same schedule
+    match n.toNat?, parseSched sc, parseTrace impl with
+    | some n, some sched, some tr =>
+      let model := showList showObs (runSched false (Sys.init n) sched).trace
+      if checkTrace tr then answer model else specFail model ("collector-" ++ traceFailKey ⟨none, 0, 0⟩ tr)
+    | _, _, _ => badCase "sched fields"
   | ["chunk", mx, fs] =>
     match mx.toNat?, parseFiles fs with
     | some mx, some items =>
